@@ -1,3 +1,4 @@
 Require Export Sop.base.VecR.
 Load "gen/NmrUtilsBody".
 Load "model/TensorFrameBody".
+Load "model/DescriptorsBody".
